@@ -14,20 +14,21 @@
       `values_…`: their `value_isothermal` / `value_adiabatic`)
   4  `interp_perm_equivariant`, `interp_perm_gamma_zero`   the per-(q,m) interpolation loop commutes with re-indexing (q,m)
   5  `lsq_row_perm`, `polyfit_row_perm`, `fit_modulus_row_perm`   least squares does not see the order of the rows
-  6  `lsq_affine_abscissa`, `eulerian_reference_affine`, `fit_modulus_affine_partial`, `static_row_perm_partial`
+  6  `lsq_affine_abscissa`, `eulerian_reference_affine`, `fit_modulus_answers`, `fit_modulus_affine`, `static_row_perm`
                                              another reference volume V₀ = volumes[0]: abscissa changes affinely, fitted values do not
   7  `static_keys_canonical`, `static_columns_reordered`   column prefix / letter case / order of the static table
 
   PARTIAL (details at the theorems):
-    * 5/6 at the level of the executable solvers are conditional on the solver answering (`… = some r`): the solvers return
-      only certified solutions of the normal equations, their totality on full-rank systems is not proved (same gap as
-      C11 `lsq_exact_kernel_partial`); the mathematical statement `lsq_affine_abscissa` itself is proved in full.
+    * (5/6 are unconditional since the solver-totality proofs `Lemmas/SolveTotal.lean`, `Lemmas/GaussJordan.lean`: on ≥ deg+1
+      distinct abscissae both executable solvers answer — C11 `lsq_total`, `polyfit_total` — so `fit_modulus_affine` and
+      `static_row_perm` are equalities of the results, "one answers iff the other does" included.)
     * 4 assumes both runs return; that an exception of one run is an exception of the other is not stated.
     * volume blocks of the phonon file in another order: goes through qha (grid refinement, its own ordering check) and
       scipy — no theorem; `harness/c13.py` (vol-rev / vol-shuffle: same numbers or an error) is the only evidence.
     * rounding: theorems are over ℝ / ordered fields; "unchanged to rounding" is measured by the harness (1e-8 of scale).
 -/
 import CijProofs.Lemmas.Presentation
+import CijProofs.Lemmas.GaussJordan
 import CijProofs.Lemmas.Voigt
 import CijProofs.Properties.C11
 import CijProofs.Properties.C17
@@ -256,60 +257,69 @@ theorem solvers_certified (xs ys : List K) (d : ℕ) (p : List K) :
    fun h => (Cij.LeastSq.normalEqs_of_polyfit xs ys d p h).2⟩
 
 open Cij.FullModulus in
-/- FULL statement (not proved): under the hypotheses below, `fitModulus inp' moduli order = fitModulus inp moduli order`
-   (including: one answers iff the other does).
-   Proved part (`…_partial`): whenever both answer, the answers are equal.  Missing: totality of the unpivoted
-   elimination `LeastSq.solve` on non-singular normal systems (its answer is only returned after the certificate
-   `normalEqHolds` passed; that it answers is observed on every correspondence case of C05, and the end-to-end effect of a
-   reordered table is measured by harness/c13.py `row-perm`). -/
+/-- **fit_modulus answers** on every well-shaped table: as many strains as products `V·c` and at least `order + 2` distinct
+strains (the property's "≥ 4 distinct volumes" for the default cubic, order = 2).  The unpivoted Gauss–Jordan elimination of
+the model never meets a zero pivot on these normal equations (`AᵀA` is positive definite: `normalAug_leadingNonsing`) and its
+result passes the certificate (`polyfit_total`). -/
+theorem fit_modulus_answers (inp : Inputs K) (moduli : List K) (order : ℕ)
+    (hlen : inp.strains.length = (List.zipWith (fun v c => v * c) inp.volumes moduli).length)
+    (hdist : order + 2 ≤ inp.strains.toFinset.card) :
+    ∃ r, fitModulus inp moduli order = some r := by
+  obtain ⟨p, hp⟩ := Cij.LeastSq.polyfit_total inp.strains _ (order + 1) hlen hdist
+  unfold fitModulus
+  rw [hp]
+  exact ⟨_, rfl⟩
+
+open Cij.FullModulus in
 /-- **fit_modulus with another reference volume.**  Strains of the table volumes and of the fine grid are both transformed by
 the one affine map `f ↦ a·f + b` (`eulerian_reference_affine`); at least `order + 2` distinct strains.  The fitted static
-modulus on the fine grid is unchanged. -/
-theorem fit_modulus_affine_partial (inp inp' : Inputs K) (a b : K) (ha : a ≠ 0) (moduli : List K) (order : ℕ)
+modulus on the fine grid is unchanged — as results of the executable model: both fits answer (`fit_modulus_answers`) with the
+same array, or (table columns of different lengths: numpy's TypeError) neither does. -/
+theorem fit_modulus_affine (inp inp' : Inputs K) (a b : K) (ha : a ≠ 0) (moduli : List K) (order : ℕ)
     (hs : inp'.strains = inp.strains.map fun x => a * x + b)
     (hsa : inp'.strainArray = inp.strainArray.map fun x => a * x + b)
     (hv : inp'.volumes = inp.volumes) (hva : inp'.vArray = inp.vArray)
-    (hdist : order + 2 ≤ inp.strains.toFinset.card) (r r' : List K)
-    (h : fitModulus inp moduli order = some r) (h' : fitModulus inp' moduli order = some r') : r' = r := by
-  unfold fitModulus at h h'
-  cases hp : Cij.LeastSq.polyfit inp.strains (List.zipWith (fun v c => v * c) inp.volumes moduli) (order + 1) with
-  | none => simp [hp] at h
-  | some p =>
-    cases hp' : Cij.LeastSq.polyfit inp'.strains (List.zipWith (fun v c => v * c) inp'.volumes moduli) (order + 1) with
-    | none => simp [hp'] at h'
-    | some p' =>
-      simp only [hp, hp', Option.pure_def, Option.bind_eq_bind, Option.bind_some, Option.some.injEq] at h h'
-      subst h; subst h'
-      obtain ⟨hlen, hne⟩ := Cij.LeastSq.normalEqs_of_polyfit _ _ _ _ hp
-      obtain ⟨_, hne'⟩ := Cij.LeastSq.normalEqs_of_polyfit _ _ _ _ hp'
-      rw [hs, hv] at hne'
-      have key := affine_unique _ _ hlen a b ha (order + 1) p p' hne hne' hdist
-      rw [hsa, hva, List.zipWith_map_left]
-      have : ∀ s v : K, Cij.LeastSq.polyval p' (a * s + b) / v = Cij.LeastSq.polyval p s / v := fun s v => by
-        rw [Cij.LeastSq.polyval_eq_interp, Cij.LeastSq.polyval_eq_interp, key]
-      simp only [this]
+    (hdist : order + 2 ≤ inp.strains.toFinset.card) :
+    fitModulus inp' moduli order = fitModulus inp moduli order := by
+  unfold fitModulus
+  rw [hs, hv]
+  by_cases hlen : inp.strains.length = (List.zipWith (fun v c => v * c) inp.volumes moduli).length
+  · obtain ⟨p, hp⟩ := Cij.LeastSq.polyfit_total inp.strains _ (order + 1) hlen hdist
+    obtain ⟨p', hp'⟩ := Cij.LeastSq.polyfit_total (inp.strains.map fun x => a * x + b)
+      (List.zipWith (fun v c => v * c) inp.volumes moduli) (order + 1) (by simpa using hlen)
+      (by rw [Cij.LeastSq.card_map_affine _ a b ha]; exact hdist)
+    obtain ⟨_, hne⟩ := Cij.LeastSq.normalEqs_of_polyfit _ _ _ _ hp
+    obtain ⟨_, hne'⟩ := Cij.LeastSq.normalEqs_of_polyfit _ _ _ _ hp'
+    have key := affine_unique _ _ hlen a b ha (order + 1) p p' hne hne' hdist
+    simp only [hp, hp', Option.pure_def, Option.bind_eq_bind, Option.bind_some, Option.some.injEq]
+    rw [hsa, hva, List.zipWith_map_left]
+    have : ∀ s v : K, Cij.LeastSq.polyval p' (a * s + b) / v = Cij.LeastSq.polyval p s / v := fun s v => by
+      rw [Cij.LeastSq.polyval_eq_interp, Cij.LeastSq.polyval_eq_interp, key]
+    simp only [this]
+  · rw [Cij.LeastSq.polyfit_none_of_length_ne _ _ _ hlen,
+      Cij.LeastSq.polyfit_none_of_length_ne _ _ _ (by simpa using hlen)]
+    rfl
 
 open Cij.FullModulus in
-/- FULL statement (not proved): as below with `fitModulus inp' moduli' order = fitModulus inp moduli order`.
-   Missing: the same solver totality as for `fit_modulus_affine_partial`. -/
 /-- **rows of the static table in ANY other order** (clauses 5 and 6 together): the rows (volume, value) are permuted, hence the
 reference volume `volumes[0]` may change, hence the strains of the permuted rows and of the fine grid are the affine image
-of the original ones.  Whenever both fits answer, `fit_modulus` returns the same array on the fine grid. -/
-theorem static_row_perm_partial (inp inp' : Inputs K) (a b : K) (ha : a ≠ 0) (moduli moduli' : List K) (order : ℕ)
+of the original ones.  `fit_modulus` returns the same array on the fine grid (and answers: `fit_modulus_answers`). -/
+theorem static_row_perm (inp inp' : Inputs K) (a b : K) (ha : a ≠ 0) (moduli moduli' : List K) (order : ℕ)
     (hl1 : inp.strains.length = inp.volumes.length) (hl2 : inp.volumes.length = moduli.length)
     (hl1' : inp'.strains.length = inp'.volumes.length) (hl2' : inp'.volumes.length = moduli'.length)
     (hrows : (inp'.strains.zip (inp'.volumes.zip moduli')).Perm
       ((inp.strains.map fun x => a * x + b).zip (inp.volumes.zip moduli)))
     (hsa : inp'.strainArray = inp.strainArray.map fun x => a * x + b) (hva : inp'.vArray = inp.vArray)
-    (hdist : order + 2 ≤ inp.strains.toFinset.card) (r r' : List K)
-    (h : fitModulus inp moduli order = some r) (h' : fitModulus inp' moduli' order = some r') : r' = r := by
+    (hdist : order + 2 ≤ inp.strains.toFinset.card) :
+    fitModulus inp' moduli' order = fitModulus inp moduli order ∧ ∃ r, fitModulus inp moduli order = some r := by
   -- the original rows with the new reference volume
   let mid : Inputs K := { inp with strains := inp.strains.map fun x => a * x + b,
                                    strainArray := inp.strainArray.map fun x => a * x + b }
   have hmid : fitModulus inp' moduli' order = fitModulus mid moduli order :=
     Cij.C13.fit_modulus_row_perm mid inp' moduli moduli' order (by simp [mid, hl1]) hl2 hl1' hl2' hrows.symm hsa hva
-  rw [hmid] at h'
-  exact fit_modulus_affine_partial inp mid a b ha moduli order rfl rfl rfl rfl hdist r r' h h'
+  refine ⟨?_, fit_modulus_answers inp moduli order (by simp [List.length_zipWith]; omega) hdist⟩
+  rw [hmid]
+  exact fit_modulus_affine inp mid a b ha moduli order rfl rfl rfl rfl hdist
 
 /-- **eulerian_reference_affine.**  qha's Eulerian strain `f = ((V₀/V)^(2/3) − 1)/2` with another reference volume `V₀'` is the
 affine image `c·f + (c − 1)/2`, `c = (V₀'/V₀)^(2/3) ≠ 0`, of the strain with reference `V₀` — for the table volumes and the
@@ -479,6 +489,20 @@ example :
     Cij.LeastSq.polyval [143 / 1272, -507 / 2968, -3617 / 8904, 4507 / 2968] (2 * 7 + 1 : ℚ)
       = Cij.LeastSq.polyval [143 / 159, 247 / 371, -914 / 1113, 391 / 371] 7 ∧
     3 + 1 ≤ ([0, 1, 2, 3, 5] : List ℚ).toFinset.card := by
+  decide +kernel
+
+/-- `fit_modulus_affine` / `fit_modulus_answers` on an instance (ℚ; 5 rows, cubic, non-zero residual; strains ↦ 2·f + 1 for
+the table and the grid): the hypotheses hold, both fits answer, with the same array -/
+example :
+    let inp : Cij.FullModulus.Inputs ℚ :=
+      { strains := [0, 1, 2, 3, 5], strainArray := [0, 4, 7], volumes := [1, 1, 2, 1, 1], vArray := [1, 2, 4],
+        table := [], lattice := [], gpaFactor := 1 }
+    let inp' : Cij.FullModulus.Inputs ℚ :=
+      { inp with strains := inp.strains.map (fun x => 2 * x + 1), strainArray := inp.strainArray.map (fun x => 2 * x + 1) }
+    2 + 2 ≤ inp.strains.toFinset.card ∧
+    inp.strains.length = (List.zipWith (fun v c => v * c) inp.volumes [1, 2, 9 / 2, 29, 126]).length ∧
+    (Cij.FullModulus.fitModulus inp [1, 2, 9 / 2, 29, 126] 2).isSome = true ∧
+    Cij.FullModulus.fitModulus inp' [1, 2, 9 / 2, 29, 126] 2 = Cij.FullModulus.fitModulus inp [1, 2, 9 / 2, 29, 126] 2 := by
   decide +kernel
 
 /-- the affine map of the Eulerian strain is a genuine one: V₀ = 8, V₀' = 27 gives c = (27/8)^(2/3) = 9/4 ≠ 1 -/
